@@ -25,6 +25,19 @@ type chunkReader struct {
 	final error
 	ewd   bool
 	reads int
+	// A port is not obliged to repeat its failure: once the terminal error has been reported, a reader that comes back
+	// anyway finds a further complete frame and then an orderly end.  (The client stops reading at the first error, so
+	// this is never seen on the unchanged tree.)
+	reported bool
+	after    []byte
+}
+
+func (r *chunkReader) terminal() error {
+	if !r.reported {
+		r.reported = true
+		r.after = []byte{0xfa, 0xff, 0x3e, 0x00, 0xc3}
+	}
+	return r.final
 }
 
 func (r *chunkReader) Read(p []byte) (int, error) {
@@ -33,8 +46,16 @@ func (r *chunkReader) Read(p []byte) (int, error) {
 		r.sched = r.sched[1:]
 		return 0, nil
 	}
+	if r.reported {
+		n := copy(p, r.after)
+		r.after = r.after[n:]
+		if n == 0 {
+			return 0, io.EOF
+		}
+		return n, nil
+	}
 	if len(r.data) == 0 {
-		return 0, r.final
+		return 0, r.terminal()
 	}
 	k := len(p)
 	if len(r.sched) > 0 {
@@ -51,7 +72,7 @@ func (r *chunkReader) Read(p []byte) (int, error) {
 	copy(p, r.data[:n])
 	r.data = r.data[n:]
 	if r.ewd && len(r.data) == 0 {
-		return n, r.final
+		return n, r.terminal()
 	}
 	return n, nil
 }
